@@ -1,5 +1,6 @@
 """C13 — NETWORK_ACK: awaited only when needed, sent once, believed only if received."""
 import re
+import struct
 from harness.framework import *
 from harness import gen_net, netsession
 from harness.gen_rf import rbytes
@@ -77,6 +78,22 @@ def session(rng, lossy):
     return f"net {rid} 1 " + " ; ".join(ops)
 
 
+def timed_ack_session(rng):
+    """open system: the sender 0o11 and its parent 0o1 (whose radio acknowledges the first hop; the node itself
+    never runs), and a NETWORK_ACK for the sender scripted to arrive `delay` after the write began - clearly inside
+    or clearly outside route_timeout.  This is the only block in which the ACK does not arrive at the first poll."""
+    rt = rng.choice([20, 75, 200])
+    inside = rng.random() < 0.5
+    delay_ms = rng.choice([rt * 0.25, rt * 0.5, rt * 0.8]) if inside else rng.choice([rt * 1.5 + 10, rt * 3 + 10])
+    typ = rng.randint(65, 127)
+    ack = struct.pack("<HHHBB", 2, 0o11, rng.randrange(65536), 193, 0)
+    ops = ["new n0 network 0 9", "new n1 network 1 1", f"n0 set route_timeout {rt}",
+           f"n0 set tx_timeout {rng.choice([5, 25])}",
+           f"env arrive n0 {int(delay_ms * 1000000)} {rng.choice([0, 1])} {ack.hex()}",
+           f"n0 write 2 {typ} {rbytes(rng, rng.choice([0, 1, 24]))} 56", "n0 read", "n0 update", "n0 read"]
+    return "net 2 0 " + " ; ".join(ops)
+
+
 def multicast_session(rng):
     line = session(rng, False)
     ops = line.split(" ; ")
@@ -108,6 +125,7 @@ class C13(PropCheck):
         cs = [(session(rng, False), "routes-lossfree") for _ in range(n)]
         cs += [(session(rng, True), "routes-with-failures") for _ in range(n)]
         cs += [(multicast_session(rng), "multicasts") for _ in range(n // 5)]
+        cs += [(timed_ack_session(rng), "timed-ack") for _ in range(n // 3)]
         return cs
 
     def nontrivial(self, line, io):
@@ -117,6 +135,11 @@ class C13(PropCheck):
         out = []
         for l, io, mo in triples:
             if not l.startswith("net "):
+                continue
+            if " ; env arrive n0 " in l:
+                f = self.judge_timed(l, io)
+                if f:
+                    out.append(f)
                 continue
             names, parts = l.split(" ; "), io.split(" ; ")
             addr = {}
@@ -211,6 +234,32 @@ class C13(PropCheck):
             if what:
                 out.append(Finding(l, what, {}))
         return out
+
+
+def _judge_timed(self, l, io):
+    """believed only if received *in time*: the scripted NETWORK_ACK arrives clearly inside / outside route_timeout"""
+    names, parts = l.split(" ; "), io.split(" ; ")
+    rt = delay = None
+    for name, part in zip(names, parts):
+        t = name.split()
+        if t[-3:-1] == ["set", "route_timeout"]:
+            rt = int(t[-1])
+        elif t[:2] == ["env", "arrive"]:
+            delay = int(t[3]) / 1e6
+        elif len(t) > 1 and t[1] == "write":
+            r0 = part.split(" ~ ")[0].split()[0]
+            if r0.startswith("exc="):
+                return None
+            if delay <= 0.8 * rt and r0 != "T":
+                return Finding(l, f"write() returned {r0} although the NETWORK_ACK for the sender arrived {delay:.1f} ms after "
+                                  f"the call began, inside route_timeout = {rt} ms", {"class": "timed-ack"})
+            if delay >= 1.5 * rt + 10 and r0 != "F":
+                return Finding(l, f"write() returned {r0} although the only NETWORK_ACK arrived {delay:.1f} ms after the call "
+                                  f"began, outside route_timeout = {rt} ms", {"class": "timed-ack"})
+    return None
+
+
+C13.judge_timed = _judge_timed
 
 
 def run(tier):
